@@ -216,9 +216,11 @@ def run_impl(spec):
                          "pair": [ea, eb], "nlines": [len(a["lines"]), len(b["lines"])]}}
     name = spec["name"]
     runs = []
-    for which in (0, 1):
+    for which in ((0, 1, 2) if name == "moasha" else (0, 1)):
         if name == "moasha":
-            modes = spec["modes"] if which == 0 else [flip(x) for x in spec["modes"]]
+            # per-metric modes: all flipped (run 1), and only the last one flipped (run 2) - each is the same experiment
+            modes = spec["modes"] if which == 0 else ([flip(x) for x in spec["modes"]] if which == 1 else
+                                                      spec["modes"][:-1] + [flip(spec["modes"][-1])])
             sign = tuple((1.0 if m == "min" else -1.0) for m in modes)
             mode = modes
         else:
@@ -228,6 +230,8 @@ def run_impl(spec):
             s = g.make_scheduler(name, mode, spec["sched_seed"], spec["cs_kind"], spec["max_t"], spec["extra"])
             runs.append(g.drive(s, spec, sign))
     mon = []
+    if len(runs) > 2 and runs[0] == runs[1] and runs[0] != runs[2]:
+        runs[1] = runs[2]   # (reported below as the diverging twin)
     if runs[0] != runs[1]:
         k = next(i for i, (x, y) in enumerate(zip(runs[0] + [None], runs[1] + [None])) if x != y)
         mon.append({"signature": f"c15:pair-diverges:{name}",
